@@ -838,6 +838,30 @@ func primToken(name string) string {
 	return ""
 }
 
+// takesProtocolOf: g is a plain function one of whose parameters has the type of fn's receiver (a
+// helper of the protocol written as a function) or, when fn is such a helper itself, of fn's own
+// protocol parameter.
+func takesProtocolOf(fn, g *ssa.Function) bool {
+	var want []types.Type
+	if r := fn.Signature.Recv(); r != nil {
+		want = append(want, r.Type())
+	} else {
+		for i := 0; i < fn.Signature.Params().Len(); i++ {
+			if _, isPtr := fn.Signature.Params().At(i).Type().(*types.Pointer); isPtr {
+				want = append(want, fn.Signature.Params().At(i).Type())
+			}
+		}
+	}
+	for i := 0; i < g.Signature.Params().Len(); i++ {
+		for _, w := range want {
+			if types.Identical(g.Signature.Params().At(i).Type(), w) {
+				return true
+			}
+		}
+	}
+	return false
+}
+
 // primSequences enumerates the primitive sequences of the error-free paths of fn (nil when fn has
 // loops or too many paths).
 func (c *Ctx) primSequences(fn *ssa.Function, depth int) ([][]string, bool) {
@@ -867,7 +891,7 @@ func (c *Ctx) primSequences(fn *ssa.Function, depth int) ([][]string, bool) {
 					if name != "WriteByte" && name != "ReadByte" {
 						name = ""
 					}
-				} else if g = com.StaticCallee(); g != nil && g.Pkg != nil && g.Pkg.Pkg.Path() == pkgPath(thriftPkg) && g.Signature.Recv() != nil {
+				} else if g = com.StaticCallee(); g != nil && g.Pkg != nil && g.Pkg.Pkg.Path() == pkgPath(thriftPkg) && (g.Signature.Recv() != nil || takesProtocolOf(fn, g)) {
 					name = g.Name()
 				} else {
 					g = nil
